@@ -115,12 +115,12 @@ def replay_conn(chk, g, ik, c, ctype, P, rng, max_states, deviate=None, report=T
 
 
 # ------------------------------------------------------------------ A2: undelayed twins
-def twin_run(chk, rng, ctype, sk, dt, steps, batch, report=True, corrupt=False):
+def twin_run(chk, rng, ctype, sk, dt, steps, batch, report=True, corrupt=False, smode=None, drift=0.0):
     """delayed connection vs one real undelayed twin per distinct delay value"""
     D = 4
     P = SynParams(D=D, **dict(PARAM_SETS[rng.randrange(len(PARAM_SETS))], dt=dt))
     maxk = rng.choice([1, 2, 3])
-    cf = {"sk": sk, "dtk": D, "dly": maxk * D, "smode": rng.choice(["previous", "nearest"]), "tol2": 1,
+    cf = {"sk": sk, "dtk": D, "dly": maxk * D, "smode": smode or rng.choice(["previous", "nearest"]), "tol2": 1,
           "cob": "val", "sob": "f"}
     from inferno import neural
     from ..impl_delayconn import partial_synapse
@@ -159,7 +159,9 @@ def twin_run(chk, rng, ctype, sk, dt, steps, batch, report=True, corrupt=False):
     else:
         dk.reshape(-1)[rng.randrange(dk.numel())] = maxk      # some synapse sits at the supported maximum
     delayed.weight = Wt.clone()
-    delayed.delay = dk.float() * (D * P.tick)
+    # drift: the learned delays lie a fraction of a step off their grid point, inside the synapse's interpolation
+    # tolerance (1/8 step), above it except at the maximum (C02: within tolerance of the grid IS the grid point)
+    delayed.delay = (dk.float() + drift * torch.where(dk < maxk, 1.0, -1.0)) * (D * P.tick)
     bias = delayed.bias.detach().clone()
     Wt = delayed.weight.detach().clone()           # (lateral: masked)
     dk = (delayed.delay.detach() / (D * P.tick)).round().long()
@@ -170,6 +172,7 @@ def twin_run(chk, rng, ctype, sk, dt, steps, batch, report=True, corrupt=False):
         t.bias = torch.zeros_like(bias)
         twins[k] = t
     outs = {k: [] for k in twins}
+    xhist = []                             # input spikes since the start / the last clear
     worst = None
     for step in range(steps):
         x = (torch.rand((batch,) + inshape, generator=gen) < 0.4).float()
@@ -179,6 +182,8 @@ def twin_run(chk, rng, ctype, sk, dt, steps, batch, report=True, corrupt=False):
                 t.clear()
             for k in outs:
                 outs[k] = []
+            xhist = []
+        xhist.append(x)
         try:
             y = delayed(x)
         except (RuntimeError, ValueError, TypeError, IndexError, AttributeError, AssertionError) as e:
@@ -211,11 +216,29 @@ def twin_run(chk, rng, ctype, sk, dt, steps, batch, report=True, corrupt=False):
         if bad.any():
             worst = {"step": step, "observed": y.reshape(-1).tolist(), "expected": exp.reshape(-1).tolist()}
             break
+        # the delay-offset spike view exposed for learning shows the same shift: synspike[b, i, o] is the input
+        # spike of element i, delay[o][i] steps ago (no spike from before the start / the last clear)
+        if ctype in ("dense", "lateral") and not corrupt:
+            ss = delayed.synspike
+            I_, O_ = dk.shape[1], dk.shape[0]
+            if tuple(ss.shape) == (batch, I_, O_):
+                want = torch.zeros(batch, I_, O_, dtype=torch.bool)
+                for o in range(O_):
+                    for i in range(I_):
+                        s0 = len(xhist) - 1 - int(dk[o, i])
+                        if s0 >= 0:
+                            want[:, i, o] = xhist[s0].reshape(batch, -1)[:, i] > 0
+                if report:
+                    chk.evaluations += int(want.numel())
+                if not torch.equal(ss.bool(), want):
+                    worst = {"step": step, "view": "synspike", "observed": ss.int().reshape(-1).tolist(),
+                             "expected": want.int().reshape(-1).tolist()}
+                    break
     cfg = {"conn": CONN_CLASS[ctype], "syn": sk, "dt": dt, "batch": batch, "delays_steps": dk.reshape(-1).tolist(),
            "max_delay_steps": maxk, "homogeneous": homogeneous, "params": P.asdict()}
     if worst and report:
         chk.violation({"clause": "ShiftEq", "site": "undelayed-twin", "conn": CONN_CLASS[ctype], "syn": sk,
-                       "delayed": True}, dict(cfg, **worst))
+                       "delayed": True, "view": worst.get("view", "output")}, dict(cfg, **worst))
     return worst, cfg
 
 
@@ -317,6 +340,13 @@ def run(tier: str, seed: int) -> int:
                 dt = DTS[(nruns + 3 * rep) % len(DTS)]
                 twin_run(chk, rng, ctype, sk, dt, steps=8 if tier == "quick" else 14, batch=rng.choice([1, 2, 3]))
                 nruns += 1
+    # learned delays that sit a float32 rounding error ABOVE a grid point (within the synapse's tolerance), read
+    # with the 'previous' rule: output AND the spike view must still show the shift by exactly that many steps
+    for sk in sorted(ALL):
+        for dt in (0.3, 1.1, 0.7):
+            twin_run(chk, rng, rng.choice(["dense", "lateral"]), sk, dt, steps=8 if tier == "quick" else 14,
+                     batch=rng.choice([1, 2]), smode="previous", drift=rng.choice([0.0, 0.04, 0.08]))
+            nruns += 1
     chk.extra["twin_runs"] = nruns
     chk.note(f"undelayed-twin runs: {nruns}")
     worst, cfg = twin_run(chk, rng, "dense", "sexp", 1.0, steps=6, batch=1, report=False, corrupt=True)
